@@ -93,6 +93,22 @@ class Driver:
             conf["backend.local.host"] = "127.0.0.1"
         self.sb.write(".gwfconf.json", json.dumps(conf))
 
+    # how the scheduler may show one abstract job state: every code here has exactly one class in SchedSem.tla
+    SHOW = {
+        "squeue": {"PD": ["PD", "CF", "RQ", "RH", "SE"], "R": ["R", "CG"], "OK": ["CD"], "FAIL": ["F", "TO", "OOM", "NF", "PR", "BF", "DL"], "CA": ["CA"]},
+        "sacct": {"PD": ["PENDING", "REQUEUED", "RESIZING"], "R": ["RUNNING"], "OK": ["COMPLETED"],
+                  "FAIL": ["FAILED", "TIMEOUT", "OUT_OF_MEMORY", "NODE_FAIL", "PREEMPTED", "BOOT_FAIL", "DEADLINE"], "CA": ["CANCELLED by 0", "CANCELLED"]},
+        "qstat": {"R": ["r", "t", "Rr"]},
+        "bjobs": {"PD": ["PEND", "WAIT"], "R": ["RUN"], "OK": ["DONE"], "FAIL": ["EXIT"], "CA": ["EXIT"]},
+    }
+
+    def show(self, source, j, st=None):
+        """The code `source` prints for job j (seeded per trace and job; the first code of each list is
+        the plain one and is used for two thirds of the jobs)."""
+        codes = self.SHOW[source][st or j["st"]]
+        r = random.Random(self.variant * 7919 + j["id"] * 31 + len(source))
+        return codes[0] if r.random() < 0.67 else r.choice(codes)
+
     def render(self):
         if self.backend == "local":
             return
@@ -102,11 +118,22 @@ class Driver:
                 continue
             rid = str(j["id"] + FIRST_ID - 1)
             st = j["st"]
+            # with accounting, a fifth of the jobs are ones whose accounting record lags behind the controller: once
+            # finished they are still listed by squeue with their final code while sacct shows their last live state
+            lag = self.backend == "slurm" and st in ("OK", "FAIL", "CA") and random.Random(self.variant * 131 + j["id"]).random() < 0.2
             if st in ("PD", "R"):
-                sq.append((rid, st))
-                qs.append((rid, ("hqw" if any(self.job(k)["st"] in ("PD", "R") for k in j["hold"]) else "qw") if st == "PD" else "r"))
-            sa.append((rid, {"PD": "PENDING", "R": "RUNNING", "OK": "COMPLETED", "FAIL": "FAILED", "CA": "CANCELLED by 0"}[st]))
-            bj.append((rid, {"PD": "PEND", "R": "RUN", "OK": "DONE", "FAIL": "EXIT", "CA": "EXIT"}[st]))
+                sq.append((rid, self.show("squeue", j)))
+                qs.append((rid, ("hqw" if any(self.job(k)["st"] in ("PD", "R", "E") for k in j["hold"]) else "qw") if st == "PD" else self.show("qstat", j)))
+            if st == "E":
+                # alive in the queue, shown with a code gwf has no class for (only generated for sge, lsf, slurm_noacct)
+                sq.append((rid, "SI"))
+                qs.append((rid, "Eqw"))
+            if lag:
+                sq.append((rid, self.show("squeue", j)))
+                sa.append((rid, self.show("sacct", j, "R" if j.get("ran") else "PD")))
+            else:
+                sa.append((rid, "PENDING" if st == "E" else self.show("sacct", j)))
+            bj.append((rid, "UNKWN" if st == "E" else self.show("bjobs", j)))
         self.sb.render(squeue=sq, sacct=sa, qstat=qs, bjobs=bj)
 
     def job(self, jid):
@@ -522,7 +549,7 @@ class Driver:
             if c["cmd"] == CANCEL[self.backend]:
                 jid = self.norm_id(c["argv"][-1]) if c["argv"] else -7
                 reqs.append(jid)
-                if c["res"] == "ok" and 1 <= jid <= len(self.jobs) and self.job(jid)["st"] in ("PD", "R"):
+                if c["res"] == "ok" and 1 <= jid <= len(self.jobs) and self.job(jid)["st"] in ("PD", "R", "E"):
                     self.job(jid)["st"] = "CA"
         out = (r.stdout or "") + (r.stderr or "")
         reported = [self.inv.get(n, n) for n in re.findall(r"Target (\S+) could not be cancelled", out)]
@@ -613,7 +640,7 @@ class Driver:
         afterok = self.backend != "sge"
         for k in j["hold"]:
             st = self.job(k)["st"] if 1 <= k <= len(self.jobs) else "OK"
-            if st in ("PD", "R") or (afterok and st != "OK"):
+            if st in ("PD", "R", "E") or (afterok and st != "OK"):
                 return False
         return True
 
@@ -629,6 +656,7 @@ class Driver:
             j = max(cand, key=lambda x: x["id"]) if cand else max(running, key=lambda x: x["id"])
             if j["st"] == "PD":
                 j["st"] = "R"
+                j["ran"] = True
                 self.events.append({"act": "JobStart", "t": j["tgt"], "j": j["id"]})
             j["st"] = "OK"
             self.clock += 1
@@ -641,7 +669,7 @@ class Driver:
         if self.backend == "local":
             return self.step_sched_local(h)
         a = h["act"]
-        want = {"JobStart": ("PD",), "JobEnd": ("R",), "Purge": ("OK", "FAIL", "CA")}[a]
+        want = {"JobStart": ("PD",), "JobEnd": ("R",), "Purge": ("OK", "FAIL", "CA"), "JobStick": ("PD",), "JobUnstick": ("E",)}[a]
         j = self.real_of(h["j"])
         if j is not None and (j["st"] not in want or (a == "Purge" and j["gone"])):
             j = None
@@ -650,7 +678,7 @@ class Driver:
             afterok = self.backend != "sge"
             for k in j["hold"]:
                 st = self.job(k)["st"] if 1 <= k <= len(self.jobs) else "OK"
-                if st in ("PD", "R") or (afterok and st != "OK"):
+                if st in ("PD", "R", "E") or (afterok and st != "OK"):
                     j = None
                     break
         if j is None:
@@ -661,6 +689,11 @@ class Driver:
         if j:
             if a == "JobStart":
                 j["st"] = "R"
+                j["ran"] = True
+            elif a == "JobStick":
+                j["st"] = "E"
+            elif a == "JobUnstick":
+                j["st"] = "PD"
             elif a == "JobEnd":
                 j["st"] = "OK" if h["ok"] else "FAIL"
                 if h["ok"]:
@@ -718,7 +751,7 @@ class Driver:
                 self.step_cancel(h)
             elif a in ("EditSource", "DeleteOutput", "EditSpec", "SetUseHash"):
                 self.step_env(h)
-            elif a in ("JobStart", "JobEnd", "Purge", "JobInherit"):
+            elif a in ("JobStart", "JobEnd", "Purge", "JobInherit", "JobStick", "JobUnstick"):
                 self.step_sched(h)
             elif a == "PoolRestart":
                 self.step_pool_restart(h)
